@@ -102,6 +102,7 @@ for b in small_bytes + rand_bytes:
         chk("blt-total", (b < c) or (c < b) or b == c, b, c)
         chk("sorted2", sorted([b, c]) == ([c, b] if c < b else [b, c]), b, c)
         chk("join", b"".join([b, c, b]) == b + c + b, b, c)
+        chk("minmax-bytes", min(b, c) == (c if c < b else b) and max(b, c) == (c if b < c else b) and min([b, c]) == min(b, c), b, c)
 for _ in range(min(N, 60)):
     ikm = bytes(rng.randrange(256) for _ in range(rng.choice([0, 1, 8, 100])))
     info = rng.choice([b"SPAKE2 pw", b"SPAKE2 arbitrary element", b""])
